@@ -484,7 +484,7 @@ class Fn(object):
                     work.append((s, 0))
         return None
 
-    def exit_reachable_avoiding(self, src, avoid_pred, exit_pred=None):
+    def exit_reachable_avoiding(self, src, avoid_pred, exit_pred=None, origin=None):
         """Is there a path from just after src to function exit (a return elem satisfying exit_pred, or the
         exit block) that avoids every element satisfying avoid_pred? Returns witness (ret elem or True) or None."""
         bid, idx = src
@@ -514,6 +514,8 @@ class Fn(object):
                     # falling off the end of a void function
                     if exit_pred is None:
                         return True
+                if origin is not None and self.contra(origin, s):
+                    continue
                 if s not in seen:
                     seen.add(s)
                     work.append((s, 0))
@@ -551,6 +553,13 @@ class Fn(object):
             elif bid not in r_without_f and bid in r_without_t:
                 out.append((b.term["cond"], False, b))
         return out
+
+    def contra(self, a_bid, b_bid):
+        k = (a_bid, b_bid)
+        c = self.__dict__.setdefault("_contra", {})
+        if k not in c:
+            c[k] = a_bid != b_bid and self.contradictory(a_bid, b_bid)
+        return c[k]
 
     def contradictory(self, a_bid, b_bid):
         """True when every path block a -> block b is infeasible because a guard that dominates a and a guard that
@@ -598,6 +607,35 @@ class Fn(object):
                                 stored = True
                 if not stored:
                     return True
+        return False
+
+    def var_stores(self, name):
+        return [(el, rhs) for el, lhs, op, rhs in self.stores() if is_e(strip(lhs), "var") and strip(lhs)[1] == name]
+
+    def reaching_defs(self, name, el):
+        """definitions of variable `name` that reach element el (no other definition of it on the way)."""
+        defs = self.var_stores(name)
+        dset = set(id(d) for d, _ in defs)
+        out = []
+        for d, rhs in defs:
+            if d is el:
+                continue
+            w = self.path_avoiding(d.pos(), lambda x: x is el, lambda x: id(x) in dset and x is not d and x is not el)
+            if w is not None:
+                out.append((d, rhs))
+        return out
+
+    def depends_on(self, expr, names, el=None, depth=0):
+        """does expr (evaluated at el) data-depend on one of the variables `names`, through local copies?"""
+        for s in walk(expr):
+            if is_e(s, "var"):
+                if s[1] in names:
+                    return True
+                if s[2] == "local" and depth < 4:
+                    defs = self.reaching_defs(s[1], el) if el is not None else self.var_stores(s[1])
+                    for d, rhs in defs:
+                        if self.depends_on(rhs, names, d, depth + 1):
+                            return True
         return False
 
     def between_blocks(self, a_succ, bid):
